@@ -16,10 +16,10 @@ def nontrivial(case, impl):
 
 
 def run(ctx):
-    obl = C.coq_obligations(ctx.pid, ["Extract/ExtractC01.vo", c01tng.EXTRACT], more_props=["C01Smith", c01tng.PROP])
+    obl = C.coq_obligations(ctx.pid, ["Extract/ExtractC01.vo", c01tng.EXTRACT], more_props=["C01Smith"] + c01tng.PROPS)
     extra = {}
     if ctx.thorough:
-        extra.update(C.coqchk(ctx.pid, more_props=["C01Smith", c01tng.PROP]))
+        extra.update(C.coqchk(ctx.pid, more_props=["C01Smith"] + c01tng.PROPS))
     corr = C.correspondence(ctx, "c01", nontrivial)
     # hash-order independence: a second, fresh process must print the identical implementation results
     if corr.get("ok"):
